@@ -190,13 +190,14 @@ def register(reg):
 def register_line(reg):
     """_perform_intersects_line: a point hits a (multi)line iff it equals a vertex or lies on a segment of one
     of the lines"""
-    def seg_hit(v, lo, hi, m, x, y):
-        # segment m of the line stored at [lo, hi): vertices m and m+1
-        return onseg_qf(v[lo + 2 * m], v[lo + 2 * m + 1], v[lo + 2 * m + 2], v[lo + 2 * m + 3], x, y)
+    def seg_at(v, t, x, y):
+        # the segment whose first vertex is stored at cell t
+        return onseg_qf(v[t], v[t + 1], v[t + 2], v[t + 3], x, y)
 
     def line_hit(v, lo, hi, x, y, seg_bound=None):
-        vert = exists('int', lambda q: And(q >= 0, 2 * q + 1 < hi - lo, v[lo + 2 * q] == x, v[lo + 2 * q + 1] == y))
-        seg = exists('int', lambda m: And(m >= 0, 2 * m + 3 < hi - lo, seg_hit(v, lo, hi, m, x, y)))
+        # single-index (cell position) formulation: quantifier instances are found by matching v[t]
+        vert = exists('int', lambda t: And(t >= lo, t + 1 < hi, (t - lo) % 2 == 0, v[t] == x, v[t + 1] == y))
+        seg = exists('int', lambda t: And(t >= lo, t + 3 < hi, (t - lo) % 2 == 0, seg_at(v, t, x, y)))
         return Or(vert, seg)
 
     def lines_hit(c, x, y, upto):
@@ -246,10 +247,10 @@ def register_line(reg):
                 ('done', forall('int', lambda q: Implies(And(q >= 0, q < c.i), cell_ok(a, c.result, q)))),
                 ('todo', forall('int', lambda q: Implies(And(q > c.i, q < a.inds.n), Not(c.result[q])))),
                 ('this', c.result[c.i] == lines_hit(a, c.x, c.y, c.k)),
-                ('no-vertex', Not(exists('int', lambda q: And(q >= 0, 2 * q + 1 < hi - lo, v[lo + 2 * q] == c.x,
-                                                              v[lo + 2 * q + 1] == c.y)))),
-                ('no-earlier-segment', forall('int', lambda q: Implies(And(q >= 0, q < c.m),
-                                                                       Not(seg_hit(v, lo, hi, q, c.x, c.y)))))]
+                ('no-vertex', forall('int', lambda t: Implies(And(t >= lo, t + 1 < hi, (t - lo) % 2 == 0),
+                                                              Not(And(v[t] == c.x, v[t + 1] == c.y))))),
+                ('no-earlier-segment', forall('int', lambda t: Implies(And(t >= lo, t < lo + 2 * c.m, (t - lo) % 2 == 0),
+                                                                       Not(seg_at(v, t, c.x, c.y)))))]
 
     reg.add(Contract(PT + '::_perform_intersects_line',
                      [('flat_points', Arr('float', finite=True)), ('flat_lines', Arr('float', finite=True)),
@@ -261,5 +262,4 @@ def register_line(reg):
                                                                         'todo': ['inv:todo', 'inv:range']}),
                             1: Loop(var='k', invariant=inv_k),
                             2: Loop(var='m', invariant=inv_m)},
-                     props=P, merge=False,
-                     stand_in=('inv-keep:this', 'inv-keep:no-earlier-segment')))
+                     props=P, merge=False))
